@@ -107,15 +107,17 @@ def test_driver_smoke():
     from fv.props import c10
 
     for case in (
-        ["seq", "add_mul", 5, [2, 3], ["a"], 1, 0, "g", 0, "seq"],
-        ["seq", "logaddexp_add", 4, [3], [], 1, 0, "z", 0, "mixed:3"],
-        ["seq", "max_add", 3, [2], ["b"], 0, 0, "g", 0, "naive"],
-        ["seq", "min_add", 2, [2], ["a", "b"], 1, 1, "g", 0, "mp_fresh"],
+        ["seq", "add_mul", 5, [2, 3], ["a"], 1, 0, "g", 0, [0, 1], "seq"],
+        ["seq", "logaddexp_add", 4, [3], [], 1, 0, "z", 0, [0], "mixed:3"],
+        ["seq", "max_add", 3, [2], ["b"], 0, 0, "g", 0, [0], "naive"],
+        ["seq", "min_add", 2, [2], ["a", "b"], 1, 1, "g", 0, [0], "mp_fresh"],
+        ["seq", "add_mul", 3, [2, 2], [], 1, 0, "g", 0, [1, 0], "seq"],
+        ["seq", "max_add", 5, [3, 3, 3], ["a"], 1, 0, "g", 0, [2, 0, 1], "mp_swap"],
         ["sb", "max_mul", 5, [["x", 2, [1, 3]]], [["g", 2]], "g", 0, "np:2"],
     ):
         out = c10.check(case, 0)
         assert out["status"] == "ok", out
     # a time-independent transition of odd length is declined by the library (AssertionError), not a violation
-    out = c10.check(["seq", "add_mul", 3, [2], [], 0, 0, "g", 0, "seq"], 0)
+    out = c10.check(["seq", "add_mul", 3, [2], [], 0, 0, "g", 0, [0], "seq"], 0)
     assert out["status"] == "decline" and "AssertionError" in out["why"]
     assert len(c10.cases("quick")) == len({str(c) for c in c10.cases("quick")})
